@@ -383,6 +383,10 @@ ADDENDA = {
          "recovers all coefficients from the real receiver in every session, searches them for dependencies and replays the alteration on the real "
          "sender; the dependent row set that always exists is the known finding C15-kos-dependent-rows-forgery.",
          " + coefficient recovery and dependent-set alterations"),
+ "C16": ("Additionally, in the symbolic free-hash (Dolev-Yao) model of C04 it is proved that the other label of any wire is not derivable from the "
+         "evaluator's view under XOR, hashing with any tweak, select-bit setting and fresh labels, hence if every received output label is "
+         "adversary-derivable the garbler's result loop returns an error or exactly the plain evaluation (C16_symbolic_no_wrong_result); the "
+         "computational authenticity of the AES-based scheme remains an assumption covered by fault enumeration.", " + symbolic (Dolev-Yao) authenticity theorem"),
  "C18": ("Histories: Model/Sha2pcProc.lean - any interleaving of the round steps of several sessions in one process, steps consumed in memory or "
          "through bytes, with FAILING steps (random-source faults, foreign / malformed messages): C18_hist_frame, _failures_erased, _isolation, "
          "_complete_session, _faults_rejected; harness mode hist with payload-immutability oracle.", " + multi-session histories with failing steps"),
